@@ -30,9 +30,17 @@ func MarshalLengthBytes(l int) []byte {
 }
 
 // GetLengthFromASN returns the length of a slice of ASN1 encoded bytes from the ASN1 length header it contains.
+//
+// Zero is returned if b is too short to hold the length header.
 func GetLengthFromASN(b []byte) int {
+	if len(b) < 2 {
+		return 0
+	}
 	if int(b[1]) <= 127 {
 		return int(b[1])
+	}
+	if len(b) < 2+int(b[1])-128 {
+		return 0
 	}
 	// The bytes that indicate the length
 	lb := b[2 : 2+int(b[1])-128]
@@ -46,7 +54,12 @@ func GetLengthFromASN(b []byte) int {
 }
 
 // GetNumberBytesInLengthHeader returns the number of bytes in the ASn1 header that indicate the length.
+//
+// Zero is returned if b is too short to hold a length header.
 func GetNumberBytesInLengthHeader(b []byte) int {
+	if len(b) < 2 {
+		return 0
+	}
 	if int(b[1]) <= 127 {
 		return 1
 	}
